@@ -479,8 +479,88 @@ def rule_dtype(repo, tier):
     return res
 
 
+@guarded
+def rule_domain(repo, tier):
+    """Extent 0 is a legal batch extent (empty batches are in the stated range).  math.log2 / math.log / math.sqrt of a shape extent raise a
+    'math domain error' at 0, so every such call on an extent is dominated by a test that ends the function (or skips the call) for 0."""
+    res = RuleResult('C06.DOM', 'math.log2 / math.log of a shape extent is reached only after an exit for the extent 0: scans along an empty dimension '
+                     'return the (empty) input instead of raising a math domain error', floor=1)
+    n = 0
+    for modname in ('pypose.basics.ops', 'pypose.lietensor.lietensor', 'pypose.lietensor.utils', 'pypose.lietensor.operation'):
+        for f in repo.module(modname).functions.values():
+            ext = {}
+            for a in ast.walk(f.node):
+                if isinstance(a, ast.Assign):
+                    tgts = a.targets[0].elts if isinstance(a.targets[0], ast.Tuple) and isinstance(a.value, ast.Tuple) and len(a.targets[0].elts) == len(a.value.elts) else [a.targets[0]]
+                    vals = a.value.elts if len(tgts) > 1 else [a.value]
+                    for t, v in zip(tgts, vals):
+                        if isinstance(t, ast.Name) and ((isinstance(v, ast.Subscript) and isinstance(v.value, ast.Attribute) and v.value.attr in ('shape', 'lshape')) or
+                                                        (isinstance(v, ast.Call) and isinstance(v.func, ast.Attribute) and v.func.attr in ('size', 'numel'))):
+                            ext[t.id] = a
+            for c in paths.calls_in(f.node):
+                if dotted(c.func) in ('math.log2', 'math.log', 'math.log10') and c.args:
+                    names = {x.id for x in ast.walk(c.args[0]) if isinstance(x, ast.Name)} & set(ext)
+                    direct = any(isinstance(x, ast.Attribute) and x.attr in ('shape', 'lshape') for x in ast.walk(c.args[0]))
+                    if not names and not direct:
+                        continue
+                    n += 1
+                    # an `if E == 0 / E < k / not E: return|raise` (or an assert E > 0) located before the call
+                    guarded_ = False
+                    for st in ast.walk(f.node):
+                        if getattr(st, 'lineno', 10**9) >= c.lineno:
+                            continue
+                        test = st.test if isinstance(st, (ast.If, ast.Assert)) else None
+                        if test is None:
+                            continue
+                        tn = {x.id for x in ast.walk(test) if isinstance(x, ast.Name)}
+                        if not (tn & names):
+                            continue
+                        if isinstance(st, ast.Assert):
+                            guarded_ = True
+                        elif any(isinstance(x, (ast.Return, ast.Raise)) for x in st.body):
+                            guarded_ = True
+                    res.inst({'function': f.fq, 'site': src(c)[:50], 'extent': sorted(names), 'exit for extent 0 before it': guarded_}, (f.fq, src(c)))
+                    if not guarded_:
+                        res.add(Finding('C06.DOM', f, '`%s` takes the logarithm of the extent `%s` without an earlier exit for 0: along an empty dimension the '
+                                        'function raises "math domain error" instead of returning the empty result' % (src(c)[:50], ', '.join(sorted(names)) or src(c.args[0])), node=c))
+    if n == 0:
+        raise AnalysisError('C06.DOM: no logarithm of an extent found (cumops_ changed?)')
+    return res
+
+
+@guarded
+def rule_like(repo, tier):
+    """randn_like documents "dtype / device: if None, defaults to the dtype / device of input" and the equivalence with
+    randn_<type>(x.lshape, dtype=x.dtype, device=x.device).  Its delegated constructor call therefore receives dtype and device taken from the
+    input unless the caller overrides them: an explicit keyword, or kwargs.setdefault(<name>, input.<name>) before the call."""
+    res = RuleResult('C06.LIKE', 'randn_like hands the dtype and the device of its input to the constructor it delegates to (the documented default), '
+                     'unless the caller gives them', floor=1)
+    f = repo.func('pypose.lietensor.utils', 'randn_like')
+    p0 = f.pos_params[0]
+    got = set()
+    for n in ast.walk(f.node):
+        if isinstance(n, ast.Call):
+            d = dotted(n.func) or ''
+            if d.endswith('.setdefault') and len(n.args) == 2 and isinstance(n.args[0], ast.Constant) and dotted(n.args[1]) == '%s.%s' % (p0, n.args[0].value):
+                got.add(n.args[0].value)
+            for k in n.keywords:
+                if k.arg in ('dtype', 'device') and dotted(k.value) == '%s.%s' % (p0, k.arg):
+                    got.add(k.arg)
+        if isinstance(n, ast.Dict):
+            for k, v in zip(n.keys, n.values):
+                if isinstance(k, ast.Constant) and k.value in ('dtype', 'device') and dotted(v) == '%s.%s' % (p0, k.value):
+                    got.add(k.value)
+    missing = sorted({'dtype', 'device'} - got)
+    res.inst({'function': f.fq, 'forwarded from the input': sorted(got), 'missing': missing}, f.fq)
+    if missing:
+        res.add(Finding('C06.LIKE', f, 'randn_like does not take %s from its input: pp.randn_like(x) of a float64 (or CUDA) x returns the default dtype (device), '
+                        'against its documented default and the documented equivalence with randn_<type>(x.lshape, dtype=x.dtype, device=x.device)'
+                        % ' and '.join(missing), construct='like|' + ','.join(missing)))
+    return res
+
+
 def _rules_core(repo, tier):
-    return [rule_mut(repo, tier), rule_patch(repo, tier), rule_bcast(repo, tier), rule_wrap(repo, tier), rule_dtype(repo, tier)]
+    return [rule_like(repo, tier), rule_domain(repo, tier), rule_mut(repo, tier), rule_patch(repo, tier), rule_bcast(repo, tier), rule_wrap(repo, tier), rule_dtype(repo, tier)]
 
 
 def rules(repo, tier):
